@@ -98,6 +98,15 @@ Theorem reject_unbalanced :
 Proof. exact reject_unbalanced_proof. Qed.
 Print Assumptions reject_unbalanced.
 
+(* ---- the grammar relation ------------------------------------------------------------------------------------------------------------- *)
+
+(* Grammar.v hands the [In] parameter to every operand; for ShiftExpression and tighter nonterminals (which have no such
+   parameter in the standard) it is vacuous. *)
+Theorem in_parameter_vacuous :
+  forall inf inf' n ts t, tight n = true -> derives inf n ts t -> derives inf' n ts t.
+Proof. exact derives_in_vacuous. Qed.
+Print Assumptions in_parameter_vacuous.
+
 (* ---- totality ----------------------------------------------------------------------------------------------------------------------- *)
 
 (* The fuel of the model never runs out: no theorem above holds because of the out-of-fuel value. *)
